@@ -3,18 +3,27 @@ package logqlengine
 import (
 	"net/netip"
 
+	"github.com/go-faster/errors"
+
 	"github.com/tdakkota/docker-logql/internal/logql"
 	"github.com/tdakkota/docker-logql/internal/otelstorage"
 )
 
 func buildLineFilter(stage *logql.LineFilter) (Processor, error) {
 	if stage.IP {
-		matcher, err := buildIPMatcher(stage.Op, stage.Value)
+		switch stage.Op {
+		case logql.OpEq, logql.OpNotEq:
+		default:
+			return nil, errors.Errorf("unexpected operation %q", stage.Op)
+		}
+		// Negation applies to the line, not to every address in it:
+		// `!= ip(...)` keeps lines which do not have any matching address.
+		matcher, err := buildIPMatcher(logql.OpEq, stage.Value)
 		if err != nil {
 			return nil, err
 		}
 
-		return &IPLineFilter{matcher: matcher}, nil
+		return &IPLineFilter{matcher: matcher, negate: stage.Op == logql.OpNotEq}, nil
 	}
 
 	matcher, err := buildStringMatcher(stage.Op, stage.Value, stage.Re, false)
@@ -39,6 +48,8 @@ func (lf *LineFilter) Process(_ otelstorage.Timestamp, line string, _ LabelSet) 
 // IPLineFilter looks for IP address in a line and applies matcher to it.
 type IPLineFilter struct {
 	matcher IPMatcher
+	// negate whether to keep lines without matching address.
+	negate bool
 }
 
 // Process implements Processor.
@@ -55,7 +66,7 @@ func (lf *IPLineFilter) Process(_ otelstorage.Timestamp, line string, _ LabelSet
 
 			ip, err := netip.ParseAddr(capture)
 			if err == nil && lf.matcher.Match(ip) {
-				return line, true
+				return line, !lf.negate
 			}
 			continue
 		}
@@ -64,14 +75,14 @@ func (lf *IPLineFilter) Process(_ otelstorage.Timestamp, line string, _ LabelSet
 
 			ip, err := netip.ParseAddr(capture)
 			if err == nil && lf.matcher.Match(ip) {
-				return line, true
+				return line, !lf.negate
 			}
 			continue
 		}
 		i++
 	}
 
-	return line, false
+	return line, lf.negate
 }
 
 func tryCaptureIPv4(s string) (string, bool) {
